@@ -13,13 +13,17 @@ from .monitors import PROBE, library_probes, lines_by_read
 
 def render(spec, run):
     """-> (lines, note) or (None, why-not-eligible)"""
-    if spec.get("kind") != "subunit":
+    kind = spec.get("kind")
+    if kind not in ("subunit", "api_init"):
         return None, "kind"
-    inits = spec.get("inits") or [{}]
-    if any(it.get("same_as") not in (None, 0) for it in inits) or sum(1 for it in inits if it.get("same_as") is None) != 1:
-        return None, "several objects"
+    if kind == "subunit":
+        inits = spec.get("inits") or [{}]
+        if any(it.get("same_as") not in (None, 0) for it in inits) or sum(1 for it in inits if it.get("same_as") is None) != 1:
+            return None, "several objects"
+    elif spec.get("fault") or spec.get("first_device") or spec.get("closer") or spec.get("open_fails"):
+        return None, "fault / second attempt / concurrent close: outside the dialogue model"
     dev = spec.get("device", {})
-    if dev.get("silent_after") is not None or dev.get("swallow_first"):
+    if dev.get("silent_after") is not None or (dev.get("swallow_first") and kind == "subunit") or dev.get("eof_after_bytes") is not None or dev.get("drop_at") is not None or dev.get("cut_reply"):
         return None, "device is not a function of the command text"
     tr = run.trace
     lib = {hi for _, hi, _ in library_probes(tr)}
@@ -64,20 +68,36 @@ def render(spec, run):
         out.append("answer " + core.hx(cmd) + "".join(" " + core.hx(l) for l in ls))
     # events in trace order
     evs = []
-    calls = [e for e in tr if e["k"] == "api_call" and e["op"] == "sub_initialize"]
-    rets = {e["call"]: e for e in tr if e["k"] == "api_ret" and e["op"] == "sub_initialize"}
+    opname = "sub_initialize" if kind == "subunit" else "initialize"
+    calls = [e for e in tr if e["k"] == "api_call" and e["op"] == opname]
+    rets = {e["call"]: e for e in tr if e["k"] == "api_ret" and e["op"] == opname}
     spacing = 100_000
+    first_begin = 10 ** 12
     for c in calls:
         r = rets.get(c["seq"])
         hi = r["seq"] if r else 10 ** 12
         gets = [e for e in tr if e["k"] == "call" and e["op"][0] == "get" and c["seq"] < e["seq"] < hi and str(e["ctx"]).startswith("api@")]
-        qs = [f"@{g['op'][1]}:{g['op'][2]}=?" for g in gets]
-        if not qs or qs[-1] != "@SYS:VERSION=?":
-            return None, "no synchronisation query"
-        evs.append((c["seq"], c["t"], "begin %d" % (2_000_000 + len(qs) * 5 * spacing) + "".join(" " + core.hx(q) for q in qs[:-1])))
+        # stages: runs of GET submissions, each ending with the synchronisation query
+        stages, cur = [], []
+        for g in gets:
+            cur.append(g)
+            if f"{g['op'][1]}" == "SYS" and g["op"][2] == "VERSION":
+                stages.append(cur)
+                cur = []
+        if cur or not stages:
+            if r is not None and r["exc"] is None:
+                return None, "no synchronisation query"
+            if not stages:
+                return None, "failed before the first stage"
+        for i, st in enumerate(stages):
+            qs = [f"@{g['op'][1]}:{g['op'][2]}=?" for g in st]
+            bseq, bt = st[0]["seq"], st[0]["t"]
+            if i > 0:
+                evs.append((bseq - 0.7, bt, "wake"))        # the previous stage's wait ended before this stage began
+            evs.append((bseq - 0.5, bt, "begin %d" % (2_000_000 + len(qs) * 5 * spacing) + "".join(" " + core.hx(q) for q in qs[:-1])))
+            first_begin = min(first_begin, bseq)
         if r:
             evs.append((r["seq"], r["t"], "wake" if r["exc"] is None else "timeout"))
-    first_begin = calls[0]["seq"] if calls else 10 ** 12
     for seq, text, g in groups:
         if seq in lib:
             # replies to the library's own probes are lines on the link like any other: unsolicited from the dialogue's point of view
